@@ -7,7 +7,7 @@ func init() {
 			"windows (start,length), trim sizes, cut points, site lists (repeats, any order), reference names (a row, preferably gapped, or an unknown name) and ungapped (start,length)/positions drawn valid by construction about half of the time and from {-1,0,1,L-1,L,L+1}, uniformly, or (one draw in six, every integer argument incl. partition bounds and modulo, also as decimals on the command line) from {MaxInt, MaxInt-1, MaxInt/2+1, MinInt, MinInt+1} and lengths MaxInt-start(+1) otherwise; " +
 			"partition definitions made of plain and modulo (2, 3 = codon) ranges with names that come back, built through AddRange or by parsing the generated text (blank layouts, CRLF, no final end of line), perturbed by a range outside the alignment, a repeated range, a missing range or another declared length; histories on ONE partition set (optionally started from parsed text): disjoint ranges added in any order through AddRange, on existing and on new names, with Split judged after every addition and twice in a row; " +
 			"pairs/triples of alignments with names from a common pool in different orders for Concat/Append; every (start,length), trim size, site pair and - for every gap pattern of the reference - every ungapped (start,length) and position in [-1,L+1] for L <= 8 (10 in thorough) by enumeration; " +
-			"one library case in three builds its alignments (receiver and argument of Concat separately) through a drawn chain of public operations ending on the generated content (clone, touch, rename cycle, cut window, select sites, trim gap / constant ends, drop gap rows, concat, append, re-parse FASTA); executions of subseq (-s -l -r --ref-seq --step), subsites (arguments, --sitefile, --ref-seq, -r, --informative), split --partition, extract --coordinates (several blocks, strand, --ref-seq), trim seq, concat, transpose, diff, diff --reverse on FASTA files (a third in another presentation: wrapped lines, blocks, trailing blanks, CRLF, empty lines, no final newline; a third with -o to a new or to an existing stale file that is read back; concat -l log files read; existing stale output files for split / extract) and - one execution in three, for the commands that loop over the input stream (subseq, subsites, trim seq, transpose, diff, concat) - on Phylip files holding 2-3 alignments of different lengths and gap patterns (-p, default / --one-line / --no-block output), every output alignment being compared with the oracle of ITS input alignment (the exit status must be non-zero iff the request is invalid for one of them). " +
+			"one library case in three builds its alignments (receiver and argument of Concat separately) through a drawn chain of public operations ending on the generated content (clone, touch, rename cycle, cut window, select sites, trim gap / constant ends, drop gap rows, concat, append, re-parse FASTA); executions of subseq (-s -l -r --ref-seq --step), subsites (arguments, --sitefile, --ref-seq, -r, --informative), split --partition, extract --coordinates (several blocks, strand, --ref-seq, blocks as tab-separated coordinates or as a GFF3 annotation with --gff), trim seq, concat, transpose, diff, diff --reverse on FASTA files (a third in another presentation: wrapped lines, blocks, trailing blanks, CRLF, empty lines, no final newline; a third with -o to a new or to an existing stale file that is read back; concat -l log files read; existing stale output files for split / extract) and - one execution in three, for the commands that loop over the input stream (subseq, subsites, trim seq, transpose, diff, concat) - on Phylip files holding 2-3 alignments of different lengths and gap patterns (-p, default / --one-line / --no-block output), every output alignment being compared with the oracle of ITS input alignment (the exit status must be non-zero iff the request is invalid for one of them). " +
 			"Oracle: column arithmetic on the generated rows (the addressed columns, in the addressed order, under unchanged names and row order; the smallest window holding exactly the requested reference residues, confirmed by reading the window back; the ordered complement; pairing by name with gap padding on the side where the row is absent; blocks = columns of each partition in ascending order), the documented bounds for every error (window or site outside [0,L), trim size < 0 or >= L, ungapped coordinates outside the reference, unknown reference, range outside the alignment, fewer than two partitions, other declared length), and the re-assembly relations prefix++window++suffix, SubAlign(0,k)++SubAlign(k,L-k), selection+inverse positions, re-interleaved Split blocks, Transpose twice, ReplaceMatchChars after DiffWithFirst, String() of a partition set parsed back; a panic or a Go crash trace of the command is a violation whatever the arguments. " +
 			"Non-trivial: an integer argument lies on one of -1,0,1,L-1,L,L+1 (L = alignment length, or ungapped reference length for reference coordinates), or the reference has a gap inside the requested window/among the requested positions, or the partition is not contiguous, or a row is absent on one side of a concatenation / the row orders differ, or (transpose/diff) the alignment is rectangular with at least one match character; command line: the same rule per command, several windows for --step, several blocks or a gap inside a block for extract; distinct = distinct JSON form of the case (enumeration: distinct tuples)",
 		Assumptions: []string{
@@ -16,8 +16,9 @@ func init() {
 			"calls whose start+length (or start+step+length) overflows int are generated and judged like any other: RefCoordinates must refuse them, subseq --step must stop after the last window that fits (defects before fixes d923a70 and 558bb27)",
 			"`goalign subseq -r` with a window covering the whole alignment (empty complement; a crash before fix 711de4d) is generated and judged: empty sequences or an error are accepted, a crash is a violation",
 			"the duplicate-name policy of Append (renaming suffix) is judged by C01; here only the appended residues and the untouched rows",
-			"the _al<i>/_sub<i> naming of subseq -o / subsites -o with several alignments or --step is not exercised (those executions keep standard output)",
-			"--informative is exercised on upper-case ACGT alignments without gaps, where every reading of 'character' agrees; extract --translate and --gff are not exercised (translation is C05's subject)",
+			"with several alignments or --step, subseq -o / subsites -o are judged on the documented family of files <name>, <name>_sub<j>, <name>_al<i>, <name>_al<i>_sub<j> (help text of subseq; subsites is assumed to follow the _al<i> part)",
+			"extract --gff is not documented beyond its flag help: the model is the GFF3 reading (1-based inclusive coordinates, strand in column 7, the CDS lines grouped under their Parent gene, one output per gene named by its Name attribute); files are generated without the ##gff-version pragma, which the reader refuses",
+			"--informative is exercised on upper-case ACGT alignments without gaps, where every reading of 'character' agrees; extract --translate is not exercised (translation is C05's subject)",
 			"absence of violations is established on the explored cases only; the enumerated sub-space is covered completely",
 		},
 		LevelText: "Generated-input search against a reference model: ~96 000 (quick) to ~2.9 million (thorough) alignments with windows, site lists, reference coordinates, partitions and concatenations compared with column arithmetic on the generated rows and with the re-assembly relations, ~58 000 (quick) to ~325 000 (thorough) enumerated boundary tuples, and ~2 900 (quick) to ~32 000 (thorough) executions of the commands. Shows absence of violations on what was explored; the enumerated tuples are exhaustive for L <= 8 (10 in thorough).",
